@@ -70,7 +70,16 @@ def run_one(prop, prefix=(), seed=0, replay=None, trace=False, params=None):
     except (HarnessError, Hang) as e:
         return Outcome("harness", type(e).__name__, str(e), tape.values, ctx.digest(), ctx,
                        traceback.format_exc())
-    except Exception as e:      # noqa - bug in a model or scenario
+    except Exception as e:      # noqa
+        from simcan import util
+        if util.origin(e) == "sut" and util.site(e) != "-":
+            # an exception raised by canopen itself escaped an API call the
+            # scenario expected to succeed
+            key = "%s/unexpected-exception/%s@%s" % (prop.ID, type(e).__name__, util.site(e))
+            ctx.log("VIOLATION", key, repr(e))
+            return Outcome("violation", key, "canopen raised %r\n%s" % (e, traceback.format_exc()[-1200:]),
+                           tape.values, ctx.digest(), ctx)
+        # bug in a model or scenario
         return Outcome("harness", type(e).__name__, str(e), tape.values, ctx.digest(), ctx,
                        traceback.format_exc())
     finally:
